@@ -1,0 +1,39 @@
+//go:build verif
+
+// Package verifhook provides observation and yield points for external runtime
+// monitors. With the `verif` build tag a monitor installs a handler with Set;
+// without a handler the calls are no-ops.
+package verifhook
+
+import "sync/atomic"
+
+// Enabled reports whether hooks are compiled in.
+const Enabled = true
+
+// Handler receives hook events. kind is "point" or "observe".
+type Handler func(kind, name string, kv []any)
+
+var handler atomic.Value // of Handler
+
+// Set installs the handler (nil removes it). Call it before creating engine instances.
+func Set(h Handler) {
+	if h == nil {
+		handler.Store(Handler(func(string, string, []any) {}))
+		return
+	}
+	handler.Store(h)
+}
+
+// Point marks a place where the calling goroutine may legitimately be descheduled.
+func Point(name string) {
+	if h, _ := handler.Load().(Handler); h != nil {
+		h("point", name, nil)
+	}
+}
+
+// Observe reports a read-only observation.
+func Observe(name string, kv ...any) {
+	if h, _ := handler.Load().(Handler); h != nil {
+		h("observe", name, kv)
+	}
+}
